@@ -30,6 +30,7 @@ props! {
     "C07" => c07,
     "C08" => c08,
     "C09" => c09,
+    "C10" => c10,
     "C11" => c11,
     "C13" => c13,
     "C14" => c14,
